@@ -97,6 +97,25 @@ def run_case(ctx, rng, idx):
         ctx.event("big-hypergraph")
         evaluate(ctx, rng, idx, h, "H", ":big", sample=12)
         return
+    if idx == 6 or (ctx.tier == "thorough" and idx % 5000 == 17):
+        # one hyperedge over 1500 nodes with a pendant node hanging off a member that is expanded late: a traversal visits
+        # each member's 1499 neighbours (more than a million steps) before the pendant node comes out
+        import hypergraphx as hgx
+
+        ctx.event("1500-node-block-with-a-pendant-node")
+        m_ = 1500
+        hb = hgx.Hypergraph([tuple(range(m_)), (m_ - 1, 5000), (7000, 7001)])
+        hb.add_node(9000)
+        for name, got, exp in (("num_connected_components", call(hb.num_connected_components), 3),
+                               ("largest_component_size", call(hb.largest_component_size), m_ + 1),
+                               ("is_connected", call(hb.is_connected), False),
+                               ("node_connected_component(0)", call(lambda: len(hb.node_connected_component(0))), m_ + 1),
+                               ("node_connected_component(5000)", call(lambda: len(hb.node_connected_component(5000))), m_ + 1),
+                               ("isolated_nodes", call(lambda: sorted(hb.isolated_nodes())), [9000]),
+                               ("degree(block member)", call(hb.degree, 3), 1), ("degree(attachment)", call(hb.degree, m_ - 1), 2)):
+            ctx.check("C08:components", not isinstance(got, _Raised) and got == exp, f"C08:{name}:1500-node-block", lambda: {"query": name, "got": repr(got)[:200], "expected": exp})
+        ctx.distinct_add(("block", m_))
+        return
     if idx in (2, 5) or (ctx.tier == "thorough" and idx % 500 == 13):
         from ..gen import core_periphery
 
@@ -127,6 +146,14 @@ def run_case(ctx, rng, idx):
             ctx.event("re-evaluated-after-in-place-edit")
             evaluate(ctx, rng, idx, h, kind, ":after-in-place-edit")
         lonely = [n for n in h.get_nodes() if not h.get_incident_edges(n)]
+        spare = [x for x in (history.UNIVERSES.get(uni) or history.EXTRA_UNIVERSES.get(uni) or []) if x not in h.get_nodes()]
+        if lonely and spare and rng.random() < 0.5:
+            # two edits with NO query in between that leave every count as it was: one edge-less node comes, another goes
+            h.add_node(spare[0])
+            h.remove_node(rng.choice(lonely))
+            ctx.event("re-evaluated-after-swapping-an-edgeless-node")
+            evaluate(ctx, rng, idx, h, kind, ":after-node-swap")
+            lonely = [n for n in h.get_nodes() if not h.get_incident_edges(n)]
         if lonely:  # removing a node that has no hyperedge at all goes through no edge-removal path
             h.remove_node(rng.choice(lonely))
             if h.get_nodes():
